@@ -725,7 +725,14 @@ def oracle (o : Orc) (op impl : List String) : Orc × Option String :=
     | "m" :: i :: kvs =>
       if r.status = "noclient" ∨ r.status = "dead" ∨ r.status = "skipped" then (o, none) else
       match i.toNat?, parseMsg kvs with
-      | some j, some m => oracleMsg o r j m
+      | some j, some m =>
+        let (o, v) := oracleMsg o r j m
+        -- the client's own messages about its streams: a `close`, an `abort`, or an offer that names the
+        -- stream (as its id: a failed renegotiation drops it; as `replace`: the replaced stream is closed)
+        -- may end a stream it had published; it is then no longer owed an abort when `present` is revoked
+        let o := if m.type = "close" ∨ m.type = "abort" ∨ m.type = "offer" then
+            o.modClient j fun c => { c with up := c.up.filter fun s => s ≠ m.id ∧ s ≠ m.replace } else o
+        (o, v)
       | _, _ => (o, none)
     | ["a", i] =>
       if r.status = "none" ∨ r.status = "noclient" then (o, none) else
